@@ -248,6 +248,10 @@ def stepBase (st : State) (toks : List String) : State × String :=
       | .ok res =>
         let line := s!"list {res.hdr} {if res.more then 1 else 0} {kvsStr res.kvs}"
         ({ st with reads := (id, PendingRead.recheck reqRev line) :: st.reads.filter (·.1 != id) }, s!"at {cid} get")
+      | .error .belowFloor =>
+        -- the record moved after this read's first look at it: the scan itself does not look again, the data it reads
+        -- (whatever the compaction left) is thrown away by the second look
+        ({ st with reads := (id, PendingRead.recheck reqRev "list err belowfloor") :: st.reads.filter (·.1 != id) }, s!"at {cid} get")
       | .error e => ({ st with reads := st.reads.filter (·.1 != id) }, s!"done {cid} list err {errStr e}")
       | .panic => ({ st with reads := st.reads.filter (·.1 != id) }, s!"done {cid} list PANIC")
     | some (_, .recheck reqRev line) =>
